@@ -90,6 +90,20 @@ func goStructGetOwnProperty(obj *object, name string) *property {
 	return objectGetOwnProperty(obj, name)
 }
 
+// A field or method of the Go value is not in the property table, which is all
+// the ordinary [[DefineOwnProperty]] looks at: a value is stored in the field,
+// anything else (an accessor, a change of attributes only) is refused.
+func goStructDefineOwnProperty(obj *object, name string, descriptor property, throw bool) bool {
+	goObj := obj.value.(*goStructObject)
+	if !goObj.getValue(name).IsValid() {
+		return objectDefineOwnProperty(obj, name, descriptor, throw)
+	}
+	if value, isValue := descriptor.value.(Value); isValue && goObj.setValue(obj.runtime, name, value) {
+		return true
+	}
+	return obj.runtime.typeErrorResult(throw)
+}
+
 func validGoStructName(name string) bool {
 	if name == "" {
 		return false
